@@ -35,6 +35,12 @@ let run (path : string) =
   let prevC : cobs list ref = ref [] in
   let params : BinNums.coq_Z array ref = ref [||] in
   let prevR : (BinNums.coq_Z * BinNums.coq_Z * BinNums.coq_Z) list ref = ref [] in  (* u, bapr, sapr (ok only) *)
+  let accepted = ref false in
+  let p18z = zs "1000000000000000000" in
+  let is_ok = function Base.Ok _ -> true | _ -> false in
+  let rp_of (a : BinNums.coq_Z array) : Rates.rate_params =
+    { Rates.rp_asset = a.(0); rp_uopt = a.(1); rp_base = a.(2); rp_s1 = a.(3); rp_s2 = a.(4); rp_sbase = a.(5); rp_ss1 = a.(6);
+      rp_ss2 = a.(7); rp_liqthr = a.(8); rp_liqbonus = a.(9); rp_liqpen = a.(10); rp_ltv = a.(11); rp_rf = a.(12); rp_casset = a.(13) } in
   let max_en = ref Z.zero and max_err53 = ref Z.zero and h4n = ref 0 in
   let end_case () =
     if !case <> "" then begin
@@ -53,7 +59,7 @@ let run (path : string) =
       match tokens line with
       | "case" :: id :: kind :: _ ->
         end_case (); case := id; step := 0; nt := false; Buffer.clear sig_; Buffer.add_string sig_ kind;
-        prevL := []; prevS := []; prevC := []; prevR := []; bump ("kind:" ^ kind)
+        prevL := []; prevS := []; prevC := []; prevR := []; accepted := false; bump ("kind:" ^ kind)
       | "params" :: rest -> params := Array.of_list (L.map zs rest); Buffer.add_string sig_ line
       | "o" :: "L" :: now :: last :: amt :: rate :: gi :: c :: nw :: igc :: [] ->
         incr step; incr steps; Buffer.add_string sig_ line; bump ("L:" ^ c);
@@ -104,20 +110,24 @@ let run (path : string) =
         let now, btime, amt, lsr_ = zs now, zs btime, zs amt, zs lsr_ in
         let x, y, f = units_of_bits xb, units_of_bits yb, units_of_bits fb in
         let fz = z_of_zz f in
-        let m = Accrual.calculation_of_rewards (fun _ _ -> fz) now btime amt lsr_ in
+        (* math.Pow = its exact special cases around the observed value *)
+        let m = AccrualFast.calculation_of_rewards_fast (Pow.go_pow (fun _ _ -> fz)) now btime amt lsr_ in
         cmpf "C.class" (cls_of m) c;
         (match m with Base.Ok n -> cmpf "C.new" (sz n) nw | _ -> ());
         let secs = BinInt.Z.sub now btime in
         if c = "ok" then begin
           (* the Dec -> float64 conversions of the operands *)
-          cmpf "C.to64_x" (sz (Accrual.cmp_x lsr_)) (Z.to_string x);
-          cmpf "C.to64_y" (sz (Accrual.cmp_y secs)) (Z.to_string y);
+          cmpf "C.to64_x" (sz (AccrualFast.cmp_xf lsr_)) (Z.to_string x);
+          cmpf "C.to64_y" (sz (AccrualFast.cmp_yf secs)) (Z.to_string y);
           let res = zs nw in
           if not (BinInt.Z.eqb res BinNums.Z0) then nt := true;
           (* hypotheses on math.Pow, tested *)
           let xz, yz = z_of_zz x, z_of_zz y in
-          bump (if Accrual.h1_ok xz yz fz then "pow:H1:ok" else "pow:H1:FAIL");
-          bump (if Accrual.h2_ok yz fz then "pow:H2:ok" else "pow:H2:FAIL");
+          (* the modelled special cases of math.Pow (y == 0 || x == 1 -> 1, y == 1 -> x) against the observed value *)
+          cmpf "C.pow_special_cases" (sz (Pow.go_pow (fun _ _ -> fz) xz yz)) (sz fz);
+          if BinInt.Z.eqb yz BinNums.Z0 || Z.equal x fone || Z.equal y fone then bump "pow:special-case";
+          (* derived facts, for information *)
+          bump (if Accrual.h1_ok xz yz fz then "pow:ge1:ok" else "pow:ge1:FAIL");
           (* relative error against the exact power when the exponent is a whole number of years *)
           (if Z.sign y > 0 && Z.equal (Z.rem y fone) Z.zero then begin
               let k = Z.to_int (Z.div y fone) in
@@ -130,8 +140,10 @@ let run (path : string) =
           if not (Accrual.holds_C18_zero_time secs res) then pf "cmp_zero_time" "none" nw;
           let o = { ca = amt; cr = lsr_; ct = secs; cres = res; cx = x; cy = y; cf = f } in
           L.iter (fun o' ->
-              bump (if Accrual.h3_ok (z_of_zz o'.cx) (z_of_zz o'.cy) (z_of_zz o'.cf) xz yz fz
-                    && Accrual.h3_ok xz yz fz (z_of_zz o'.cx) (z_of_zz o'.cy) (z_of_zz o'.cf) then "pow:H3:ok" else "pow:H3:FAIL");
+              (* the assumed hypothesis PowMonoBox, tested on this pair; a failure breaks the tie of the proof to the code *)
+              if Pow.pow_mono_ok (z_of_zz o'.cx) (z_of_zz o'.cy) (z_of_zz o'.cf) xz yz fz
+                 && Pow.pow_mono_ok xz yz fz (z_of_zz o'.cx) (z_of_zz o'.cy) (z_of_zz o'.cf) then bump "pow:mono:ok"
+              else begin bump "pow:mono:FAIL"; mismatch ~case:!case ~step:!step ~field:"hypothesis.PowMonoBox" ~model:"monotone" ~impl:(Printf.sprintf "pow(%s,%s)=%s_vs_pow(%s,%s)=%s" (Z.to_string o'.cx) (Z.to_string o'.cy) (Z.to_string o'.cf) (Z.to_string x) (Z.to_string y) (Z.to_string f)) end;
               mono "cmp" (o'.ca, o'.cr, o'.ct, o'.cres) (amt, lsr_, secs, res)) !prevC;
           prevC := o :: !prevC
         end
@@ -154,44 +166,68 @@ let run (path : string) =
            let num = Z.sub (Z.mul (Z.mul o1.cf o2.cf) (Z.shift_left Z.one 53)) (Z.mul (Z.mul (Z.shift_left Z.one 53) o12.cf) fone) in
            let en = if Z.sign num <= 0 then Z.zero else Z.cdiv num (Z.mul o12.cf fone) in
            incr h4n; if Z.gt en !max_en then max_en := en;
-           bump (if Accrual.h4_ok (z_of_int 4096) (z_of_zz o1.cf) (z_of_zz o2.cf) (z_of_zz o12.cf) then "pow:H4:ok(en<=4096)" else "pow:H4:FAIL(en>4096)");
-           (* predicate only (not proved through the float roundings): n1 + n2 <= n12 + amt * f12 * 2^-46 + 2 ulp *)
-           let slack = Z.add (Z.div (Z.mul (Z.mul (Z.of_string amt) o12.cf) p18) (Z.mul fone (Z.shift_left Z.one 46))) (Z.of_int 2) in
-           if Z.gt (Z.add (Z.of_string n1) (Z.of_string n2)) (Z.add (Z.of_string n12) slack) then
-             pf "cmp_subadditive" "none" (Printf.sprintf "%s+%s>%s+%s" n1 n2 n12 (Z.to_string slack))
+           if Accrual.h4_ok (z_of_int 4096) (z_of_zz o1.cf) (z_of_zz o2.cf) (z_of_zz o12.cf) then bump "pow:H4:ok(en<=4096)"
+           else begin bump "pow:H4:FAIL(en>4096)"; mismatch ~case:!case ~step:!step ~field:"hypothesis.H4" ~model:"en<=4096" ~impl:(Z.to_string en) end;
+           (* the proved bound (c18_cmp_subadditive), judged on the implementation's three results with the en measured for this triple:
+              n1 + n2 <= n12 + amtf * f12 * (en + 5) * 2^-53 + 2 ulp *)
+           let amtf = Accrual.cmp_amtf (zs amt) in
+           if not (Pow.holds_C18_cmp_subadditive (z_of_zz en) amtf (z_of_zz o12.cf) (zs n1) (zs n2) (zs n12)) then
+             pf "cmp_subadditive" "none" (Printf.sprintf "%s+%s>%s+slack(en=%s)" n1 n2 n12 (Z.to_string en));
+           if Z.gt (Z.add (Z.of_string n1) (Z.of_string n2)) (Z.of_string n12) then bump "sub:C:excess>0"
          | _ -> ())
+      | "v" :: v1 :: v2 :: v3 :: v4 :: v5 :: v6 :: st :: v7 :: nlen :: hd :: [] ->
+        incr step; incr steps; Buffer.add_string sig_ line;
+        (* every validation path, against the model of Validate / the keeper add functions *)
+        let p = rp_of !params in
+        let vc b = if b then "ok" else "err" in
+        let valid = Rates.rates_valid p in
+        let ppv = Rates.pool_pairs_valid p (zs nlen) (hd = "1") in
+        cmpf "V.AssetRatesParams.Validate" (vc valid) v1;
+        cmpf "V.AssetRatesPoolPairs.Validate" (vc ppv) v2;
+        cmpf "V.AddAssetRatesParams.ValidateBasic" (vc valid) v3;
+        cmpf "V.AddAssetRatesPoolPairsProposal.ValidateBasic" (vc ppv) v4;
+        cmpf "V.GenesisState.Validate" (vc valid) v5;
+        cmpf "V.handler.AddAssetRatesParams" (cls_of (Rates.add_rates_params p)) v6;
+        cmpf "V.stored" (if is_ok (Rates.add_rates_params p) then "1" else "0") st;
+        cmpf "V.keeper.AddAssetRatesPoolPairs" (cls_of (Rates.add_rates_pool_pairs p (zs nlen) (hd = "1") false)) v7;
+        accepted := (v6 = "ok");
+        bump ("V:handler:" ^ v6);
+        if BinInt.Z.leb p18z p.Rates.rp_uopt then bump ("V:uopt>=1:handler:" ^ v6);
+        if v6 = "ok" then nt := true
       | "o" :: "R" :: m_ :: b_ :: c1 :: ut :: c2 :: ba :: c3 :: sa :: c4 :: la :: [] ->
         incr step; incr steps; Buffer.add_string sig_ line;
-        let p = !params in
-        let uopt, base, s1, s2, sbase, ss1, ss2, rf = p.(0), p.(1), p.(2), p.(3), p.(4), p.(5), p.(6), p.(7) in
-        let kf = if Rates.kf_C18_1 uopt then "kf_C18_1" else "none" in
+        let p = rp_of !params in
+        let uopt, base, s1, sbase, ss1, rf = p.Rates.rp_uopt, p.Rates.rp_base, p.Rates.rp_s1, p.Rates.rp_sbase, p.Rates.rp_ss1, p.Rates.rp_rf in
         let mu = Rates.utilisation (zs m_) (zs b_) in
         let oc = function Some _ -> "ok" | None -> "panic" in
         let ov = function Some v -> sz v | None -> "0" in
         cmpf "R.util.class" (oc mu) c1; cmpf "R.util" (ov mu) ut;
         (match mu with
          | Some u ->
-           let mb = Rates.kink_apr u uopt base s1 s2 and ms = Rates.kink_apr u uopt sbase ss1 ss2 in
+           let mb = Rates.borrow_apr p false u and ms = Rates.borrow_apr p true u in
            cmpf "R.borrow.class" (oc mb) c2; cmpf "R.borrow" (ov mb) ba;
            cmpf "R.stable.class" (oc ms) c3; cmpf "R.stable" (ov ms) sa;
-           let ml = (match mb with Some b -> Rates.lend_apr b u rf | None -> None) in
+           let ml = Rates.lend_apr_p p u in
            cmpf "R.lend.class" (oc ml) c4; cmpf "R.lend" (ov ml) la
          | None -> ());
         bump ("R:" ^ c2);
-        if c2 = "panic" || c3 = "panic" || c4 = "panic" then pf "rate_defined" kf (Printf.sprintf "uopt=%s_u=%s" (sz uopt) ut);
-        if c1 = "ok" && c2 = "ok" && c3 = "ok" then begin
+        (* the rate is defined wherever the IMPLEMENTATION accepted the parameters *)
+        if c1 = "ok" && not (Rates.holds_C18_rate_defined !accepted (Rates.rates_bounded p) (zs ut) (c2 = "panic" || c3 = "panic" || c4 = "panic")) then
+          pf "rate_defined" "none" (Printf.sprintf "uopt=%s_u=%s" (sz uopt) ut);
+        let in_dom = !accepted || (BinInt.Z.ltb BinNums.Z0 uopt && BinInt.Z.ltb uopt p18z) in
+        if in_dom && c1 = "ok" && c2 = "ok" && c3 = "ok" then begin
           let u = zs ut in nt := true;
-          if not (Rates.holds_C18_rate_base u base (zs ba)) then pf "rate_base" kf ba;
-          if not (Rates.holds_C18_rate_base u sbase (zs sa)) then pf "rate_base_stable" kf sa;
+          if not (Rates.holds_C18_rate_base u base (zs ba)) then pf "rate_base" "none" ba;
+          if not (Rates.holds_C18_rate_base u sbase (zs sa)) then pf "rate_base_stable" "none" sa;
           L.iter (fun (u', ba', sa') ->
-              if not (Rates.holds_C18_rate_monotone u' ba' u (zs ba)) then pf "rate_monotone" kf (Printf.sprintf "u=%s:%s_u=%s:%s" (sz u') (sz ba') ut ba);
-              if not (Rates.holds_C18_rate_monotone u' sa' u (zs sa)) then pf "rate_monotone_stable" kf (Printf.sprintf "u=%s:%s_u=%s:%s" (sz u') (sz sa') ut sa);
+              if not (Rates.holds_C18_rate_monotone u' ba' u (zs ba)) then pf "rate_monotone" "none" (Printf.sprintf "u=%s:%s_u=%s:%s" (sz u') (sz ba') ut ba);
+              if not (Rates.holds_C18_rate_monotone u' sa' u (zs sa)) then pf "rate_monotone_stable" "none" (Printf.sprintf "u=%s:%s_u=%s:%s" (sz u') (sz sa') ut sa);
               if BinInt.Z.eqb u uopt && BinInt.Z.eqb u' (BinInt.Z.sub uopt (z_of_int 1)) then begin
                 bump "R:kink-pair";
-                if not (Rates.holds_C18_rate_kink uopt s1 (zs ba) ba') then pf "rate_kink" kf (Printf.sprintf "%s_vs_%s" ba (sz ba'));
-                if not (Rates.holds_C18_rate_kink uopt ss1 (zs sa) sa') then pf "rate_kink_stable" kf (Printf.sprintf "%s_vs_%s" sa (sz sa'))
+                if not (Rates.holds_C18_rate_kink uopt s1 (zs ba) ba') then pf "rate_kink" "none" (Printf.sprintf "%s_vs_%s" ba (sz ba'));
+                if not (Rates.holds_C18_rate_kink uopt ss1 (zs sa) sa') then pf "rate_kink_stable" "none" (Printf.sprintf "%s_vs_%s" sa (sz sa'))
               end) !prevR;
-          if c4 = "ok" && not (Rates.holds_C18_lend_le_borrow (zs la) (zs ba)) then pf "lend_le_borrow" kf (la ^ ">" ^ ba);
+          if c4 = "ok" && not (Rates.holds_C18_lend_le_borrow rf (zs la) (zs ba)) then pf "lend_le_borrow" "none" (la ^ ">" ^ ba);
           prevR := (u, zs ba, zs sa) :: !prevR
         end
       | _ -> ()
